@@ -279,7 +279,7 @@ Qed.
 (* a discovery request: UTF-8 text (as far as the receive buffer goes) that json.loads turns into a dict whose
    member SECoP is the str discover *)
 Definition is_request (data : bytes) (p : parse) : bool :=
-  match utf8_decode (firstn recv_bufsize data) with
+  match utf8_decode (received data) with
   | None => false
   | Some _ => match p with
               | PObj ms => match lookup K_SECoP ms with
@@ -290,13 +290,20 @@ Definition is_request (data : bytes) (p : parse) : bool :=
               end
   end.
 
+(* a killer: UTF-8 text on which json.loads raises something that is not a ValueError *)
+Definition is_killer (data : bytes) (p : parse) : bool :=
+  match utf8_decode (received data) with
+  | None => false
+  | Some _ => match p with PRaise => true | _ => false end
+  end.
+
 Lemma is_request_spec data p : is_request data p = true <->
-  (exists text, utf8_decode (firstn recv_bufsize data) = Some text) /\
+  (exists text, utf8_decode (received data) = Some text) /\
   exists ms, p = PObj ms /\ lookup K_SECoP ms = Some (Some K_discover).
 Proof.
-  unfold is_request. destruct (utf8_decode (firstn recv_bufsize data)) as [t|].
+  unfold is_request. destruct (utf8_decode (received data)) as [t|].
   2:{ split; [discriminate | intros ((t & E) & _); discriminate]. }
-  destruct p as [| |s0|es|ms]; try (split; [discriminate | intros (_ & ms & E & _); discriminate]).
+  destruct p as [| | |s0|es|ms]; try (split; [discriminate | intros (_ & ms & E & _); discriminate]).
   destruct (lookup K_SECoP ms) as [[v|]|] eqn:L.
   - rewrite str_eqb_eq. split.
     + intros <-. split; [eauto|]. exists ms. auto.
@@ -305,11 +312,13 @@ Proof.
   - split; [discriminate|]. intros (_ & ms' & E & L'). injection E as <-. rewrite L in L'. discriminate.
 Qed.
 
-Lemma handle_spec data p : handle data p = if is_request data p then VAnswer else VIgnore.
+Lemma handle_spec data p :
+  handle data p = if is_request data p then VAnswer else if is_killer data p then VKill else VIgnore.
 Proof.
-  unfold handle, is_request. destruct (utf8_decode (firstn recv_bufsize data)); [|reflexivity].
-  destruct p as [| |s0|es|ms]; try reflexivity.
-  destruct (lookup K_SECoP ms) as [[v|]|]; reflexivity.
+  unfold handle, is_request, is_killer. destruct (utf8_decode (received data)); [|reflexivity].
+  destruct p as [| | |s0|es|ms]; try reflexivity.
+  destruct (lookup K_SECoP ms) as [[v|]|]; try reflexivity.
+  all: cbn [elem_is]; destruct (str_eqb K_discover v); reflexivity.
 Qed.
 
 Definition reply (l : listener) (i : input) : list (dest * bytes) :=
@@ -323,26 +332,77 @@ Theorem answers_iff l s data p a : st s = Listening ->
   outs (lstep l s (IRecv data p a)) = outs s ++ reply l (IRecv data p a).
 Proof.
   intro H. unfold lstep, reply. rewrite H, handle_spec.
-  destruct (is_request data p); cbn; [reflexivity | symmetry; apply app_nil_r].
+  destruct (is_request data p); cbn; [reflexivity|].
+  destruct (is_killer data p); cbn; symmetry; apply app_nil_r.
 Qed.
 
-(* no datagram whatsoever ends the loop *)
-Theorem survives l s data p a : st s = Listening -> st (lstep l s (IRecv data p a)) = Listening.
-Proof. intro H. unfold lstep. rewrite H. destruct (handle data p); reflexivity. Qed.
+(* ---- the receive size limit against the nesting limit of json.loads *)
+Definition loads_law (limit : nat) (text : bytes) (p : parse) : Prop := loads_law_b limit text p = true.
+
+Lemma openers_le_length bs : (openers bs <= length bs)%nat.
+Proof.
+  unfold openers. induction bs as [|b bs IH]; [cbn; lia|]. cbn [filter]. destruct (is_opener b); cbn [length]; lia.
+Qed.
+
+Lemma received_length data : (length (received data) <= recv_size)%nat.
+Proof. unfold received. rewrite firstn_length. lia. Qed.
+
+(* a text cut to fewer bytes than the nesting limit cannot make json.loads raise anything but a ValueError *)
+Lemma law_no_raise limit data p : (recv_size < limit)%nat -> loads_law limit (received data) p -> p <> PRaise.
+Proof.
+  intros HR HL ->. unfold loads_law, loads_law_b in HL. apply Nat.leb_le in HL.
+  pose proof (openers_le_length (received data)). pose proof (received_length data). lia.
+Qed.
+
+Lemma law_not_killer limit data p : (recv_size < limit)%nat -> loads_law limit (received data) p ->
+  is_killer data p = false.
+Proof.
+  intros HR HL. pose proof (law_no_raise limit data p HR HL) as N. unfold is_killer.
+  destruct (utf8_decode (received data)); [|reflexivity]. destruct p; try reflexivity. contradiction.
+Qed.
+
+(* exactly the killers end the thread ... *)
+Theorem killed_iff l s data p a : st s = Listening ->
+  (st (lstep l s (IRecv data p a)) = Killed <-> is_killer data p = true).
+Proof.
+  intro H. unfold lstep. rewrite H, handle_spec.
+  destruct (is_request data p) eqn:R.
+  - assert (is_killer data p = false) as ->.
+    { unfold is_request, is_killer in *. destruct (utf8_decode (received data)); [|reflexivity].
+      destruct p; try reflexivity. discriminate. }
+    cbn. split; discriminate.
+  - destruct (is_killer data p); cbn; split; try discriminate; reflexivity.
+Qed.
+
+(* ... and a datagram that is no killer leaves the responder listening *)
+Lemma survives_unless_killer l s data p a : st s = Listening -> is_killer data p = false ->
+  st (lstep l s (IRecv data p a)) = Listening.
+Proof.
+  intros H K. unfold lstep. rewrite H, handle_spec, K. destruct (is_request data p); reflexivity.
+Qed.
+
+(* no datagram whatsoever ends the loop, as long as the receive size is below the nesting limit of json.loads *)
+Theorem survives limit l s data p a : (recv_size < limit)%nat -> loads_law limit (received data) p ->
+  st s = Listening -> st (lstep l s (IRecv data p a)) = Listening.
+Proof. intros HR HL H. apply survives_unless_killer; [exact H | eapply law_not_killer; eassumption]. Qed.
 
 Definition is_recv (i : input) : Prop := match i with IRecv _ _ _ => True | IError => False end.
 
-Lemma loop_recv l ins : Forall is_recv ins -> forall s, st s = Listening ->
+(* a received datagram together with a json.loads outcome that obeys the law *)
+Definition recv_ok (limit : nat) (i : input) : Prop :=
+  match i with IRecv data p _ => loads_law limit (received data) p | IError => False end.
+
+Lemma loop_recv limit l ins : (recv_size < limit)%nat -> Forall (recv_ok limit) ins -> forall s, st s = Listening ->
   st (fold_left (lstep l) ins s) = Listening /\
   outs (fold_left (lstep l) ins s) = outs s ++ flat_map (reply l) ins /\
   consumed (fold_left (lstep l) ins s) = (consumed s + length ins)%nat.
 Proof.
-  induction 1 as [|i ins Hi _ IH]; intros s Hs.
+  intro HR. induction 1 as [|i ins Hi _ IH]; intros s Hs.
   - cbn. rewrite app_nil_r. auto.
   - destruct i as [data p a|]; [|contradiction].
     cbn [fold_left flat_map].
     pose proof (answers_iff l s data p a Hs) as O.
-    pose proof (survives l s data p a Hs) as S.
+    pose proof (survives limit l s data p a HR Hi Hs) as S.
     destruct (IH _ S) as (I1 & I2 & I3). split; [exact I1|]. split.
     + rewrite I2, O, <- app_assoc. reflexivity.
     + rewrite I3. unfold lstep. rewrite Hs. destruct (handle data p); cbn; lia.
@@ -350,17 +410,18 @@ Qed.
 
 (* whatever is received -- any bytes, any JSON value -- an enabled responder goes on listening and has answered
    exactly the requests, in order; only a socket error (shutdown) ends it *)
-Theorem keeps_answering l ins : l_enabled l = true -> Forall is_recv ins ->
+Theorem keeps_answering limit l ins : (recv_size < limit)%nat ->
+  l_enabled l = true -> Forall (recv_ok limit) ins ->
   st (run l ins) = Listening /\ outs (run l ins) = outs (start l) ++ flat_map (reply l) ins.
 Proof.
-  intros He Hb. unfold run. assert (st (start l) = Listening) as Hs by (cbn; rewrite He; reflexivity).
-  destruct (loop_recv l ins Hb _ Hs) as (A & B & _). auto.
+  intros HR He Hb. unfold run. assert (st (start l) = Listening) as Hs by (cbn; rewrite He; reflexivity).
+  destruct (loop_recv limit l ins HR Hb _ Hs) as (A & B & _). auto.
 Qed.
 
 Lemma not_listening_forever l ins : forall s, st s <> Listening -> fold_left (lstep l) ins s = s.
 Proof.
   induction ins as [|i ins IH]; intros s H; [reflexivity|].
-  cbn [fold_left]. assert (lstep l s i = s) as -> by (unfold lstep; destruct (st s); [contradiction| |]; reflexivity).
+  cbn [fold_left]. assert (lstep l s i = s) as -> by (unfold lstep; destruct (st s); [contradiction| | |]; reflexivity).
   apply IH. exact H.
 Qed.
 
